@@ -609,6 +609,23 @@ def corr_c10(n_quick, n_thorough):
             if a is None or a != b[3:]:
                 out.append({'stream': 'snapshot', 'id': vid, 'vector': l, 'real': 'continuous run: ' + str(a)[:1500],
                             'other': 'CPU rebuilt from States + exported fields after every Step: ' + str(b)[:1500]})
+        # memory-kind independence (real vs real): the same vectors with the harness memory, a full DumbMemory and a MapMemory
+        import os
+        step_lines = [l for l in lines if l.endswith('K step') and not l.startswith('inj-')]
+        mk = step_lines[::(1 if ctx.tier == 'thorough' else 4)]
+        mk += [l for l in chk.gen_vectors('intr', ['-seed', str(ctx.seed + 9), '-n', '1500' if ctx.tier == 'thorough' else '150']).splitlines() if l.strip()]
+        rc, mo = chk.sh([os.path.join(chk.WORK, 'harness'), 'memkinds'], inp='\n'.join(mk) + '\n', timeout=3600)
+        ml = [l for l in mo.splitlines() if l and not l.startswith('WARNING')]
+        byid = {l.split(' ', 1)[0]: l for l in mk}
+        n_mk = 0
+        for l in ml:
+            vid, _, rest = l.partition(' ')
+            if rest == 'same':
+                n_mk += 1
+            else:
+                out.append({'stream': 'memkinds', 'id': vid, 'vector': byid.get(vid, ''), 'real': rest[:1500], 'other': 'the outcome must not depend on what kind of object the memory is (harness memory vs z80.DumbMemory vs z80.MapMemory holding the same bytes)'})
+        if len(ml) != len(mk):
+            out.append({'stream': 'memkinds', 'id': 'length', 'vector': mo[-1500:], 'real': f'{len(ml)} answers for {len(mk)} vectors', 'other': None})
         exe, race = race_bin(chk)
         parvec = '\n'.join([l for l in lines if l.startswith('inj-')][:400]) + '\n' + chk.gen_vectors('run', ['-seed', str(ctx.seed), '-n', '200'])
         g = 16 if ctx.tier == 'thorough' else 8
@@ -622,8 +639,10 @@ def corr_c10(n_quick, n_thorough):
         if not pl:
             out.append({'stream': 'parallel', 'id': 'par', 'vector': po[-1500:], 'real': f'exit {rc}', 'other': None})
         cov['evaluations'] = cov.get('evaluations', 0) + 2 * n_rb
-        cov['correspondence'].update({'snapshot_pairs': n_rb, 'parallel': pl, 'race_detector': race, 'goroutines': g})
+        cov['evaluations'] += 3 * n_mk
+        cov['correspondence'].update({'snapshot_pairs': n_rb, 'memory_kind_triples': n_mk, 'parallel': pl, 'race_detector': race, 'goroutines': g})
         cov['rule'] += (' | snapshot: every vector (injection programs, one per opcode slot, block runs) is also run with the CPU REBUILT from a copy of States and the exported fields after EVERY Step; results must be identical. '
+                        '| memkinds: opcode-slot and interrupt vectors run three times on the real code, with the harness memory, a 64 KiB z80.DumbMemory and a z80.MapMemory holding the same bytes; state, changed bytes and port/handler events must agree '
                         '| parallel: the injection programs and Run vectors executed from %d goroutines concurrently on their own CPUs/memories, compared with the sequential results, under the race detector' % g)
         return out, cov
     return run
